@@ -12,4 +12,18 @@ CLAIMS = {
                  "declarations and with an independent oracle (documented alphabets, IUPAC sets, NCBI table 1). Static, exhaustive over a finite domain.",
         "note": TRUST + "Decides the whole property (finite domain). text::Dna is treated as the documented identity codec for bit patterns.",
     },
+    "C03": {
+        "technique": "affine range table over the bit ranges handed to bitvec's checked Index + transparent-cast typestate + guard row",
+        "level": "Decides, for every codec width at once, that each of the 7 Index forms passes exactly [BITS*a, BITS*b) (a,b by core::ops "
+                 "semantics) to bitvec's checked Index and returns the pointer cast of that BitSlice (repr(transparent) verified), that "
+                 "get is Some iff i<len, nth/get decode Index<usize>, len=bits/BITS; nesting composes because rows are affine maps.",
+        "note": TRUST + "Necessary structural conditions; bitvec's own range arithmetic and bounds check are trusted (model row).",
+    },
+    "C11": {
+        "technique": "guard table: exact iterator transitions (success guard, item, state update, initial state) from path-partitioned MIR dataflow",
+        "level": "Decides the exact transition relation of SeqIter, RevIter and SeqChunks (windows/chunks) and their constructors as canonical "
+                 "linear guards and affine updates; item counts, order and termination (w>=1) follow arithmetically. Field roles are inferred "
+                 "from constructors, so private renames do not matter.",
+        "note": TRUST + "Imports C03 rows for what a slice/index denotes. std Iterator::chain/map/collect trusted.",
+    },
 }
